@@ -82,6 +82,21 @@ def run(chk):
                 chk.violation("after add%r the %s mapping differs from the documented layout: %s, reference model: %s" %
                               (tuple(op), kind, core.canon(d["impl"][step])[:300], core.canon(d["model"][step])[:300]),
                               d["case"], "ops_manifests:" + kind)
+    # every documented architecture (frozen copy of the shipped table; src/nosrc are refused as tree architectures) is accepted by
+    # each builder, whatever the live table has become
+    from suites.common import DOC_RPM_ARCHES
+    for kind, mk in [("rpms", lambda a: ["Server", a, "bash-0:5.1-2.el9.x86_64", "p", None, "binary", "bash-0:5.1-2.el9.src"]),
+                     ("modules", lambda a: ["Server", a, "mod:stream:123:ctx", "tag", "md.yaml", "binary", ["a-0:1-1.x86_64"]]),
+                     ("extra", lambda a: ["Server", a, "GPL", 1234, {"sha256": "ab" * 32}])]:
+        dc = [{"kind": kind, "ops": [mk(a)]} for a in DOC_RPM_ARCHES if a not in (["src", "nosrc"] if kind == "rpms" else [])]
+
+        def oracle_doc(c, res, kind=kind):
+            if not res or res[0][0] != "ok":
+                return "%s add under the documented architecture %r was refused: %r" % (kind, c["ops"][0][1], res[0][:2] if res else res)
+            return None
+
+        core.differential(chk, "ops_manifests:%s:documented-arches" % kind, dc, "ops_" + kind, model_cases=[c["ops"] for c in dc],
+                          nontrivial=lambda c, r: True, oracle=oracle_doc, normalise=lambda r: r)
     # dump_for_tree / base path stripping
     dcases = []
     for _ in range(N[chk.tier] // 2):
